@@ -363,20 +363,38 @@ def main():
                                                          "UNTIL allowed; BYEASTER only with all passes in 1583..4098; "
                                                          "passes within year 9999",
                 "C01_rrule_iter_correct_yearly_all_fuel_partial": "same family without BYEASTER: every fuel incl. "
-                                                                  "the MAXYEAR end"},
+                                                                  "the MAXYEAR end",
+                "C01_rrule_iter_correct_coarse_partial": "SUMMARY, FREQ YEARLY..DAILY, equal fuel: spec_wf, BYWEEKNO "
+                    "in -53..53, no BYEASTER; BYSETPOS, COUNT, UNTIL, interval free; MONTHLY: any BYDAY; YEARLY: nth "
+                    "weekdays only without BYMONTH; WEEKLY/DAILY: plain BYDAY; WEEKLY: passes whose weeks end within "
+                    "9999-12-31 and (with BYSETPOS) first week not before 0001-01-01",
+                "C01_rrule_iter_correct_monthly_all_partial": "mfam_all: every MONTHLY rule of the domain without "
+                                                              "BYEASTER; every fuel",
+                "C01_rrule_iter_correct_yearly_full_partial": "yfam_all: YEARLY without BYEASTER, plain BYDAY or nth "
+                                                              "weekdays without BYMONTH; BYSETPOS free; every fuel",
+                "C01_rrule_iter_correct_weekly_setpos_partial": "wfam_s: WEEKLY, plain BYDAY, BYSETPOS free",
+                "C01_rrule_iter_correct_daily_setpos_partial": "dfam_s: DAILY, plain BYDAY, BYSETPOS free; every fuel",
+                "C01_day_filter_correct_extension": "plain family without BYEASTER, indices of the cross-year week",
+                "C01_rrule_iter_correct_subdaily_stream_partial": "sfam: HOURLY/MINUTELY/SECONDLY, plain BYDAY, no "
+                    "BYSETPOS, no BYEASTER: model and specification enumerate the same stream (position by "
+                    "position, unbounded fuel); equality at EQUAL fuel is false for sub-daily rules",
+                "C01_subdaily_prefix_of_spec_partial": "sfam: every fuel and limit, yielded sequence is a prefix of "
+                                                       "the specification's",
+                "C01_subdaily_spec_prefix_of_iterate": "sfam: the converse (progress)"},
             "not_proved_correspondence_only": [
-                "rrule_iter_correct (model = spec for every rule in spec_wf): proved only for the YEARLY family "
-                "above; MONTHLY / WEEKLY / DAILY and the sub-daily frequencies, BYSETPOS and nth weekdays inside "
-                "the loop theorem are not proved",
-                "day_filter_correct for YEARLY+BYMONTH rules with nth-weekday BYDAY and for the 7-day extension of "
-                "WEEKLY rules (their masks are proved)",
-                "MONTHLY and WEEKLY day sets (mdayset, wdayset), BYSETPOS selection (poslist_build vs select_pos)",
-                "sub-daily advance layer as a whole (proved: __mod_distance and __construct_byset specifications)",
-                "strictly increasing / no duplicates as a theorem outside the YEARLY family (checked on every "
-                "yielded sequence instead)",
-                "no IndexError / only ValueError for the whole loop (proved per mask builder and for rebuild)"]},
+                "rrule_iter_correct (model = spec for every rule in spec_wf): proved for the families above; NOT "
+                "proved: BYEASTER outside plain YEARLY rules without BYSETPOS, YEARLY with BYMONTH + nth weekdays, "
+                "BYDAY with nth values under WEEKLY/DAILY/sub-daily (the n is ignored by the code), BYSETPOS for "
+                "sub-daily FREQ, the cut-off last week of year 9999 (WEEKLY), BYWEEKNO members beyond +-53",
+                "day_filter_correct for YEARLY+BYMONTH rules with nth-weekday BYDAY (their masks are proved)",
+                "strictly increasing / no duplicates as a separate theorem (follows from equality with the "
+                "specification inside the proved families; checked on every yielded sequence otherwise)",
+                "no IndexError / only ValueError for the whole loop (proved per mask builder, for rebuild, and "
+                "implied by the loop theorems inside their families)"]},
         "refuted_theorems": [t for t in props["theorems"] if "refuted" in t],
-        "differential_only": ["sub-daily advance layer (HOURLY/MINUTELY/SECONDLY jumps, __mod_distance)",
+        "differential_only": ["BYEASTER outside YEARLY, BYSETPOS with sub-daily FREQ, YEARLY BYMONTH + nth weekdays",
+                              "WEEKLY + BYSETPOS whose first week begins before 0001-01-01 (positions would count "
+                              "unrepresentable days): model vs implementation only",
                               "rules outside spec_wf (empty BY-lists, BYMONTHDAY 0, out-of-range time parts): "
                               "model vs implementation only"],
         "known_findings_hit": verdict.known_hits,
